@@ -410,6 +410,30 @@ func (c *fctx) collect(e ast.Node, write bool, out *[]access) {
 	})
 }
 
+// elementOf recognises an assignment target inside an element of a probed
+// slice (x[i] or x[i].f.g) and returns the element as the written location,
+// plus a read of the slice header through the ordinary path.
+func (c *fctx) elementOf(e ast.Expr) *access {
+	cur := e
+	for {
+		switch t := cur.(type) {
+		case *ast.SelectorExpr:
+			cur = t.X
+			continue
+		case *ast.ParenExpr:
+			cur = t.X
+			continue
+		case *ast.IndexExpr:
+			_, label, leaves, sync, ok := c.resolve(t.X)
+			if !ok || sync || leaves != nil {
+				return nil
+			}
+			return &access{expr: t, label: label + "[i]", write: true}
+		}
+		return nil
+	}
+}
+
 func (c *fctx) probes(acc []access) []ast.Stmt {
 	var out []ast.Stmt
 	seen := map[string]bool{}
@@ -469,6 +493,11 @@ func (c *fctx) stmt(s ast.Stmt) []ast.Stmt {
 		for _, l := range t.Lhs {
 			if _, ok := l.(*ast.Ident); ok {
 				continue // a plain local variable
+			}
+			if el := c.elementOf(l); el != nil {
+				// mock.calls.X[i].F = v : a write into a record that snapshots may alias
+				writes = append(writes, *el)
+				continue
 			}
 			c.collect(l, true, &writes)
 		}
